@@ -105,8 +105,8 @@ func genFW(w *bufio.Writer, thorough bool, r *Rng) {
 			ops = append(ops, "w:"+dataTok(r, sz, o.lvl))
 		case 1, 2: // several writes and flushes
 			ops = append(ops, splitWrites(r, sz, o.lvl)...)
-		default: // ReadFrom with fragmentation
-			ops = append(ops, fmt.Sprintf("rf:%s:%d:-1:%d", dataTok(r, sz, o.lvl), r.Pick([]int{0, 0, 1, 7, 4096, 65536, 100000}), r.Intn(2)))
+		default: // ReadFrom with fragmentation (last field: data with EOF, zero-length reads, both)
+			ops = append(ops, fmt.Sprintf("rf:%s:%d:-1:%d", dataTok(r, sz, o.lvl), r.Pick([]int{0, 0, 1, 7, 4096, 65536, 100000}), r.Intn(4)))
 		}
 		ops = append(ops, "c")
 		fmt.Fprintf(w, "W -1 %s\n", strings.Join(ops, " "))
@@ -1081,7 +1081,9 @@ func genFRFail(w *bufio.Writer, thorough bool, r *Rng) {
 			if ch == 1 && len(bf.frame) > 20000 {
 				continue
 			}
-			fmt.Fprintf(w, "R %d %s %d -1 %d wt:-1 E:%s\n", r.Pick([]int{1, 4}), bf.ref, ch, r.Intn(2), bf.content)
+			// the last field: 1 = the final data comes together with io.EOF, 2 = every other call returns (0, nil), 3 = both
+			fmt.Fprintf(w, "R %d %s %d -1 %d %s E:%s\n", r.Pick([]int{1, 4}), bf.ref, ch, r.Intn(4),
+				[]string{"wt:-1", fmt.Sprintf("r:%d r:%d r:9", bf.clen+1, bf.clen+1)}[r.Intn(2)], bf.content)
 		}
 		// the source ends early (also inside a leading skippable frame): never a clean end
 		if !bf.legacy && len(bf.frame) > 12 {
